@@ -389,3 +389,12 @@ pub fn case_shadowing_and_blocks() -> i64 {
 pub fn case_integer_semantics() -> Vec<i64> {
     vec![7 / 2, -7 / 2, 7 % 3, -7 % 3, (7i64).pow(2), (-7i64).abs(), 5i64.min(3), 5i64.max(3), (5u64).saturating_sub(9) as i64, 3i64.signum(), (10usize).div_ceil(4) as i64, 1 << 4, 0xff & 0x0f, 6 ^ 3]
 }
+pub fn case_string_local_a() -> String { let mut s = String::new(); s.push_str("ab"); s.push('c'); s }
+pub fn case_string_local_b() -> String { let mut s = String::new(); s.push_str("ab"); s.insert(0, '>'); s }
+pub fn case_string_local_c() -> String { let mut s = String::new(); s.push_str("ab"); s += "d"; s }
+pub fn case_string_local_d() -> String { let mut s = String::from("ab"); s.extend(['e', 'f']); s }
+pub fn case_string_local_e() -> String { let s = String::from("ab"); let t = s.clone() + "!"; t }
+pub fn case_string_local_f() -> usize { let a: Option<i64> = Some(3); let n: Option<i64> = None; a.iter().chain(n.iter()).count() }
+pub fn case_string_local_g() -> Vec<i64> { let v = vec![1, 2, 3]; v }
+pub fn case_string_local_h() -> Vec<i64> { let v = vec![7; 3]; v }
+pub fn case_string_local_i() -> Vec<&'static str> { "a b  c".split_whitespace().collect() }
